@@ -346,7 +346,7 @@ theorem rdDmig_lines (d : Dmig) (hc : d.Clean) : rdDmig d.lines = some [d.readFr
     obtain ⟨c', _, rfl⟩ := List.mem_map.mp hcm
     simp [cardName_cardVals1]
   have hhead : cardName d.headerVals = some (lower d.name) := rfl
-  simp only [List.length_cons, dmigAux, hhead, takeWhile_all' _ _ hall, dropWhile_all' _ _ hall, dmigOne_written,
-    dmigAux_nil]
+  simp only [List.isEmpty_cons, Bool.false_eq_true, if_false, List.length_cons, dmigAux, hhead, takeWhile_all' _ _ hall,
+    dropWhile_all' _ _ hall, dmigOne_written, dmigAux_nil]
 
 end PyYetiVerif.Bulk
